@@ -69,7 +69,11 @@ fn decode_methods(cx: &mut Ctx) -> Value {
         }
         match found {
             Some(conv) => out.push(json!({"name": name, "type": ty, "conv": conv, "err": format!("{}Unknown", ty)})),
-            None => cx.fail(format!("{}: fn {} body does not match the decode template", FILE, name)),
+            None => {
+                cx.fail(format!("{}: fn {} body does not match the decode template", FILE, name));
+                // still listed (by signature) so that the harness exercises it
+                out.push(json!({"name": name, "type": ty, "conv": Value::Null, "err": format!("{}Unknown", ty)}));
+            }
         }
     }
     Value::Array(out)
